@@ -116,6 +116,29 @@ PROPS.update({
     },
 })
 
+def _c14_post(merged_all, tier, seed, work):
+    import os
+    import c14
+    res = c14.run([os.path.join(work, "C14_0")])
+    for v in res["violations"]:
+        v["seed"] = seed * 1000
+        v["workload"] = {"bin": "vh", "engine": "vstream", "profile": "c14", "args": {}}
+    return res
+
+
+PROPS["C14"] = {
+    "engine_name": "vstream",
+    "workloads": [vstream("c14", 1600, 30000, sample_keys=[])],
+    "post": _c14_post,
+    "rule": "every stream (3/4 synthetic with names/texts/panic messages containing quotes, markup, ampersands, non-ASCII, path-less features, retries, hook failures, both kinds of parser errors, not-found failures; 1/4 recorded from real runs) is written by Basic (Coloring::Never), Libtest, Json and JUnit, each behind Normalize, with varying verbosity / --show-output / --report-time; each document is parsed back by an independent parser and compared with the facts; non-trivial = the stream has a retry, a hook failure, a parser error, a path-less feature or special characters; distinct by (reporter, those flags, step statuses present, number of features, options)",
+    "floor": {"quick": 100, "thorough": 300},
+    "assumptions": VSTREAM_ASSUME + [
+        "input restriction: names and texts contain no newline, no '::', no ' | Retry attempt' and do not start with a marker glyph",
+        "trusted: python json / xml.etree parsers; the facts are read off the stream after the real Normalize (checked separately by C11)",
+        "the CDATA terminator ']]>' is planted only in every 10th synthetic case",
+    ],
+}
+
 NOT_APPLICABLE = {}
 
 ENGINES = [
